@@ -77,7 +77,7 @@ Print Assumptions safe_prog_preserves_old_objects.
    bodies of the verb front ends (alias, select, drop, rename, mutate, filter, arrange, group_by, ungroup,
    summarize, slice_head, join and its four variants, union), of their nested helpers, of preprocess_arg, of
    check_subquery (the rebuilding of the tree above an alias), of the modify_ast / verb wrappers
-   (pipe/verbs.py, pipe/pipeable.py), of Cache.update, of every map_subtree, of every receiver-writing
+   (pipe/verbs.py, pipe/pipeable.py), of Cache.update, from_ast, requires_subquery and selected_cols, of every map_subtree, of every receiver-writing
    method map_children / map_col_roots / map_col_nodes (tree/verbs.py, tree/col_expr.py; run on a shallow
    copy of the receiver, so that the theorem says that nothing but the receiver is written) and of every
    _clone / clone (the tree nodes and the backends' source tables: what export and build_query hand to a
